@@ -662,10 +662,15 @@ template <class I1, class I2> struct image_eq {
         for (size_t i = 0; i < y.a.n; ++i) y.a.p[i] ^= (unsigned char)~y.mask[i];
         if (!(x.img == y.img) || (x.img != y.img))
             vh::viol(k + ".false-on-padding", vh::cat(ctx, ": only row padding / alignment slack differs: images compare unequal"));
-        // different dimensions
+        // different dimensions, same pixels in the common rectangle
         {   I2 z(w + 1, h, a2); I2 z2(w, h + 1, a2);
-            if (h > 0 && (x.img == z)) vh::viol(k + ".true-on-other-dimensions", vh::cat(ctx, " vs ", w + 1, "x", h));
-            if (w > 0 && (x.img == z2)) vh::viol(k + ".true-on-other-dimensions", vh::cat(ctx, " vs ", w, "x", h + 1)); }
+            if (z.width() == w + 1 && z.height() == h && z2.width() == w && z2.height() == h + 1) {
+                for (long j = 0; j < h; ++j) for (long i = 0; i < w; ++i) { gil::view(z)(i, j) = v1(i, j); gil::view(z2)(i, j) = v1(i, j); }
+                if (h > 0) for (long i = 0; i < w; ++i) gil::view(z2)(i, h) = v1(i, 0);
+                if (w > 0) for (long j = 0; j < h; ++j) gil::view(z)(w, j) = v1(0, j);
+                if ((x.img == z) || !(x.img != z)) vh::viol(k + ".true-on-other-dimensions", vh::cat(ctx, " vs ", w + 1, "x", h));
+                if ((x.img == z2) || !(x.img != z2)) vh::viol(k + ".true-on-other-dimensions", vh::cat(ctx, " vs ", w, "x", h + 1));
+            } }
         vh::evals(5); if (g_round == 0) vh::distinct(1);
     }
     static void run(const char* n1, const char* n2) {
